@@ -147,8 +147,8 @@ format_wr = [
 ]
 format_cpop = [
     mnemo,
-    lambda i: [(Token.Constant, "{i.operands[0]:d}")]
-              + TokenListJoin(", ", regs(i)[1:]),
+    lambda i: TokenListJoin(", ", [(Token.Constant, "%d" % i.operands[0].value)]
+                                  + regs(i)[1:]),
 ]
 
 SPARC_V8_full_formats = {
@@ -174,7 +174,7 @@ SPARC_V8_full_formats = {
     "sparc_Fpop1_group1"  : [mnemo, LambdaTokenListJoin(", ", regs)],
     "sparc_Fpop1_group2"  : [mnemo, LambdaTokenListJoin(", ", regs)],
     "sparc_Fpop2_"        : [mnemo, LambdaTokenListJoin(", ", regs)],
-    "sparc_Cpop"          : format_cpop,
+    "sparc_CPop"          : format_cpop,
 }
 
 SPARC_V8_full = Formatter(SPARC_V8_full_formats)
